@@ -71,6 +71,10 @@ var c09from = Register("C09", "C09.fromfloat", func(a c09FromArgs) *Violation {
 	st := S("C09", "fromfloat")
 	st.Eval(1)
 	f := math.Float64frombits(a.Bits64)
+	primedUnderAnotherMode(hashWords(a.Bits64, uint64(a.Bits32)), func() {
+		_ = d128.FromFloat64(f)
+		_ = d128.FromFloat32(math.Float32frombits(a.Bits32))
+	})
 	d := d128.FromFloat64(f)
 	if v := checkFromFloat("FromFloat64", f, d, st); v != nil {
 		return v
@@ -390,6 +394,7 @@ var c09frombig = Register("C09", "C09.frombigfloat", func(a c09FromBigArgs) *Vio
 	f := new(big.Float).SetPrec(prec).SetInt(m)
 	f.SetMantExp(f, a.Exp)
 	keep := new(big.Float).Copy(f)
+	primedUnderAnotherMode(hashString(a.Mant)+uint64(a.Exp), func() { _ = d128.FromFloat(f) })
 	g := ref.Decode(d128.FromFloat(f))
 	if f.Cmp(keep) != 0 {
 		return violf("FromFloat modified its argument")
